@@ -1,7 +1,8 @@
 ---------------------------- MODULE TraceSigning ----------------------------
 (***************************************************************************)
 (* Trace validation for C14: one record per real update+save.              *)
-(*  [signopt "unset"|"on"|"off", was_signed, key_usable, explicit_key,     *)
+(*  [signopt "unset"|"on"|"off", was_signed, key_usable, signable,         *)
+(*   explicit_key,                                                         *)
 (*   end "ok"|"fail"|..., exc,                                             *)
 (*   top: [classes: Seq(line class), verified, signer_ok, entries_match],  *)
 (*   subs: Seq([classes])]                                                 *)
@@ -30,8 +31,11 @@ Clauses(r) ==
        \cup (IF r.end = "ok" /\ want /\ tk = "signed" /\ r.top.verified /\ ~r.top.entries_match
              THEN {"C14.SignedTextNotTheEntries"} ELSE {})
        \cup (IF want /\ ~r.key_usable /\ r.end = "ok" THEN {"C14.SilentlyUnsignedOrWrongKey"} ELSE {})
-       \cup (IF want /\ ~r.key_usable /\ r.end # "ok" /\ r.exc # "OpenPGPSigningFailure" THEN {"C14.WrongFailure"} ELSE {})
-       \cup (IF (~want \/ r.key_usable) /\ r.end # "ok" THEN {"C14.SpuriousFailure"} ELSE {})
+       \* signable = FALSE: the text holds a line longer than gpg signs intact (it would be cut silently)
+       \cup (IF want /\ r.key_usable /\ ~r.signable /\ r.end = "ok" THEN {"C14.UnsignableTextSigned"} ELSE {})
+       \cup (IF want /\ (~r.key_usable \/ ~r.signable) /\ r.end # "ok" /\ r.exc # "OpenPGPSigningFailure"
+             THEN {"C14.WrongFailure"} ELSE {})
+       \cup (IF (~want \/ (r.key_usable /\ r.signable)) /\ r.end # "ok" THEN {"C14.SpuriousFailure"} ELSE {})
 
 Init == i \in 1..Len(Trace) /\ done = FALSE
 Next == /\ ~done /\ done' = TRUE /\ i' = i
